@@ -253,8 +253,18 @@ func report(eng *Engine, prop, tier string, seed int, verif, outDir string, cfg 
 			}
 		}
 	}
-	for _, u := range undecidedClauses {
+	for i, u := range undecidedClauses {
 		fmt.Println("UNDECIDED:", u)
+		// a clause of a contract this check relies on cannot be evaluated on this tree (a name it mentions is gone, a
+		// call it governs no longer exists): what it stated is no longer established. None occurs on the pinned tree.
+		fn := u
+		if k := strings.Index(u, ": "); k > 0 {
+			fn = u[:k]
+		}
+		name := fmt.Sprintf("%s#clause#cannot-be-evaluated@%d", fn, i+1)
+		path := filepath.Join(replayDir, trunc(reSafeName.ReplaceAllString(name, "_"), 120)+".txt")
+		os.WriteFile(path, []byte(fmt.Sprintf("property: %s\nobligation: %s\nA contract clause this check relies on cannot be evaluated on the current tree:\n  %s\nWhat the clause stated is therefore not established.\nno-failing-input-found\n", prop, name, u)), 0o644)
+		violations = append(violations, fmt.Sprintf("VIOLATION property=%s replay=%s obligation=%s status=undecided no-failing-input-found", prop, path, name))
 	}
 	if verbose {
 		for _, o := range obls {
